@@ -24,6 +24,11 @@
 (*             is updated (WriteBufferToFileIndirect continuation write)   *)
 (*  "Reappend" replay of a variable-length command appends its records     *)
 (*             again although the primary write had completed              *)
+(*  "LoopSplitsRequest"  the background loop's timer flush takes whatever   *)
+(*             is on the write channel, possibly only the first commands   *)
+(*             of a request that is still being queued: the request is     *)
+(*             committed as two transactions                               *)
+(*  "PowerReorder"  see CrashPower                                         *)
 (***************************************************************************)
 EXTENDS Integers, Sequences, FiniteSets, TLC, SequencesExt, Json
 
@@ -33,6 +38,8 @@ CONSTANTS FixedFiles, VarFiles,   \* file ids (strings)
           MaxCmds,                \* commands per request
           MaxCrash, MaxCkpt,
           PowerLoss,              \* TRUE: CrashPower enabled, FALSE: CrashKill only
+          LoopMode,               \* TRUE: background WAL loop (flushes any prefix of the queue, rotates), client runs concurrently
+          MaxRot,                 \* WAL rotations (truncate + status) in LoopMode
           Deviations
 
 Files == FixedFiles \cup VarFiles
@@ -57,10 +64,12 @@ VARIABLES
   mode,       \* "run" | "rec"
   rtodo,      \* recovery: TGs still to replay
   crashes, ckpts, bad,
-  inflight    \* request in flight at the (last) crash, 0 if none
+  inflight,   \* request in flight at the (last) crash, 0 if none
+  queue,      \* write channel: commands enqueued and not yet taken by a flush
+  rots        \* rotations done
 
 vars == <<wal, walSync, fx, vidx, vdat, veof, unsynced, snap, pc, cur, todo, vtmp, tg, lastC, req, acked, writes,
-          mode, rtodo, crashes, ckpts, bad, inflight>>
+          mode, rtodo, crashes, ckpts, bad, inflight, queue, rots>>
 
 Prim == [fx |-> fx, vidx |-> vidx, vdat |-> vdat, veof |-> veof]
 
@@ -83,6 +92,7 @@ Init ==
   /\ pc = "idle" /\ cur = <<>> /\ todo = <<>> /\ vtmp = <<>>
   /\ tg = 1 /\ lastC = 0 /\ req = 0 /\ acked = {} /\ writes = <<>>
   /\ mode = "run" /\ rtodo = <<>> /\ crashes = 0 /\ ckpts = 0 /\ bad = "none" /\ inflight = 0
+  /\ queue = <<>> /\ rots = 0
 
 (***************************************************************************)
 (* Primary-file primitives, as pure functions on a primary state p.        *)
@@ -137,13 +147,28 @@ DefaultLen(recs) == Len(recs)
 (***************************************************************************)
 SetPrim(p) == /\ fx' = p.fx /\ vidx' = p.vidx /\ vdat' = p.vdat /\ veof' = p.veof
 
+\* "prim" with nothing left to write is as good as idle (the flush has ended)
+Idle == pc = "idle" \/ (pc = "prim" /\ todo = <<>> /\ vtmp = <<>>)
+PrevAcked == req = 0 \/ req \in acked \/ req = inflight   \* (a request in flight at a crash died with its client)
+
+\* WriteCSM: the request's commands are queued on the write channel (one client, one request at a time)
 Issue(cmds) ==
-  /\ mode = "run" /\ pc = "idle" /\ req < MaxReq /\ bad = "none"
+  /\ mode = "run" /\ bad = "none" /\ req < MaxReq /\ PrevAcked
+  /\ (LoopMode \/ (Idle /\ queue = <<>>))
   /\ req' = req + 1
-  /\ cur' = [i \in 1..Len(cmds) |-> [f |-> cmds[i].f, s |-> cmds[i].s, recs |-> cmds[i].recs]]
-  /\ writes' = Append(writes, cur')
+  /\ queue' = queue \o [i \in 1..Len(cmds) |-> [f |-> cmds[i].f, s |-> cmds[i].s, recs |-> cmds[i].recs]]
+  /\ writes' = Append(writes, [i \in 1..Len(cmds) |-> [f |-> cmds[i].f, s |-> cmds[i].s, recs |-> cmds[i].recs]])
+  /\ UNCHANGED <<wal, walSync, fx, vidx, vdat, veof, unsynced, snap, pc, cur, todo, vtmp, tg, lastC, acked, mode, rtodo, crashes, ckpts, bad, inflight, rots>>
+
+\* FlushToWAL: take what is on the write channel now (inline: everything; the background loop may run while the
+\* client is still queueing, so it may take any non-empty prefix)
+FlushBegin(k) ==
+  /\ mode = "run" /\ bad = "none" /\ Idle /\ k \in 1..Len(queue)
+  /\ \/ k = Len(queue)
+     \/ LoopMode /\ "LoopSplitsRequest" \in Deviations   \* a timer flush may fire while WriteCSM is still queueing
+  /\ cur' = SubSeq(queue, 1, k) /\ queue' = SubSeq(queue, k + 1, Len(queue))
   /\ pc' = "tiPrep"
-  /\ UNCHANGED <<wal, walSync, fx, vidx, vdat, veof, unsynced, snap, todo, vtmp, tg, lastC, acked, mode, rtodo, crashes, ckpts, bad, inflight>>
+  /\ UNCHANGED <<wal, walSync, fx, vidx, vdat, veof, unsynced, snap, todo, vtmp, tg, lastC, req, acked, writes, mode, rtodo, crashes, ckpts, bad, inflight, rots>>
 
 \* the fragment the writer emits next, and the pc after it
 NextFrag == CASE pc = "tiPrep" -> FragTI(tg, "WAL", "PREP")
@@ -166,7 +191,7 @@ WalWrite ==   \* one write(2) appending a fragment to the WAL
   /\ pc' = PcAfter
   /\ lastC' = IF pc = "ckDone" THEN 0 ELSE lastC
   /\ ckpts' = IF pc = "ckDone" THEN ckpts + 1 ELSE ckpts
-  /\ UNCHANGED <<walSync, fx, vidx, vdat, veof, unsynced, snap, cur, todo, vtmp, tg, req, acked, writes, mode, rtodo, crashes, bad, inflight>>
+  /\ UNCHANGED <<walSync, fx, vidx, vdat, veof, unsynced, snap, cur, todo, vtmp, tg, req, acked, writes, mode, rtodo, crashes, bad, inflight, queue, rots>>
 
 \* group the commands per file in the order of first appearance (writesPerFile); the files themselves are
 \* visited in Go map order, i.e. any order
@@ -179,7 +204,7 @@ WalFsync ==   \* FilePtr.Sync(): the TG is committed
   /\ lastC' = tg /\ tg' = tg + 1
   /\ todo' = cur
   /\ pc' = "prim"
-  /\ UNCHANGED <<wal, fx, vidx, vdat, veof, unsynced, snap, cur, vtmp, req, acked, writes, mode, rtodo, crashes, ckpts, bad, inflight>>
+  /\ UNCHANGED <<wal, fx, vidx, vdat, veof, unsynced, snap, cur, vtmp, req, acked, writes, mode, rtodo, crashes, ckpts, bad, inflight, queue, rots>>
 
 \* one primary write system call.  The commands of one file are applied in order, the next file is any file
 \* that still has commands.  vtmp holds the ops of the command in progress.
@@ -189,7 +214,7 @@ PrimStep(devs, blobLen(_)) ==
      THEN /\ SetPrim(ApplyOp(Prim, Head(vtmp)))
           /\ unsynced' = Append(unsynced, Head(vtmp))
           /\ vtmp' = Tail(vtmp)
-          /\ UNCHANGED <<todo, bad>>
+          /\ UNCHANGED <<todo, bad, queue, rots>>
      ELSE \E f \in FilesOf(todo) :
             \* continue with the file in progress if any command of the current file remains: the real code finishes
             \* a file before the next (approximated: any file; per-file order is kept)
@@ -202,43 +227,46 @@ PrimStep(devs, blobLen(_)) ==
                        /\ unsynced' = Append(unsynced, Head(r.ops))
                        /\ vtmp' = Tail(r.ops)
                        /\ bad' = bad
-                  ELSE /\ bad' = "decode" /\ UNCHANGED <<fx, vidx, vdat, veof, unsynced, vtmp>>
+                  ELSE /\ bad' = "decode" /\ UNCHANGED <<fx, vidx, vdat, veof, unsynced, vtmp, queue, rots>>
 
 PrimWrite ==
   /\ mode = "run" /\ pc = "prim" /\ (todo # <<>> \/ vtmp # <<>>)
   /\ PrimStep(Deviations, DefaultLen)
-  /\ UNCHANGED <<wal, walSync, snap, pc, cur, tg, lastC, req, acked, writes, mode, rtodo, crashes, ckpts, inflight>>
+  /\ UNCHANGED <<wal, walSync, snap, pc, cur, tg, lastC, req, acked, writes, mode, rtodo, crashes, ckpts, inflight, queue, rots>>
 
+\* the request returns: all of its commands have been flushed (WAL synced, primary written)
+HasReq(sq, r) == \E i \in 1..Len(sq) : \E k \in 1..Len(sq[i].recs) : sq[i].recs[k] \div 10 = r
 Ack ==
-  /\ mode = "run" /\ bad = "none" /\ pc = "prim" /\ todo = <<>> /\ vtmp = <<>>
+  /\ mode = "run" /\ bad = "none" /\ Idle /\ req > 0 /\ req \notin acked /\ req # inflight
+  /\ ~HasReq(queue, req)
   /\ acked' = acked \cup {req} /\ pc' = "idle" /\ cur' = <<>>
-  /\ UNCHANGED <<wal, walSync, fx, vidx, vdat, veof, unsynced, snap, todo, vtmp, tg, lastC, req, writes, mode, rtodo, crashes, ckpts, bad, inflight>>
+  /\ UNCHANGED <<wal, walSync, fx, vidx, vdat, veof, unsynced, snap, todo, vtmp, tg, lastC, req, writes, mode, rtodo, crashes, ckpts, bad, inflight, queue, rots>>
 
 (***************************************************************************)
 (* Checkpoint: TI(CKPT,PREP) ; sync() ; TI(CKPT,DONE)    (CreateCheckpoint) *)
 (***************************************************************************)
 CkptBegin ==
-  /\ mode = "run" /\ bad = "none" /\ pc = "idle" /\ lastC # 0 /\ ckpts < MaxCkpt
+  /\ mode = "run" /\ bad = "none" /\ Idle /\ lastC # 0 /\ ckpts < MaxCkpt
   /\ pc' = "ckPrep"
-  /\ UNCHANGED <<wal, walSync, fx, vidx, vdat, veof, unsynced, snap, cur, todo, vtmp, tg, lastC, req, acked, writes, mode, rtodo, crashes, ckpts, bad, inflight>>
+  /\ UNCHANGED <<wal, walSync, fx, vidx, vdat, veof, unsynced, snap, cur, todo, vtmp, tg, lastC, req, acked, writes, mode, rtodo, crashes, ckpts, bad, inflight, queue, rots>>
 
 Syncfs ==     \* sync(2): every file, including the WAL, is durable
   /\ bad = "none" /\ pc \in {"ckSync", "rckSync"}
   /\ snap' = Prim /\ unsynced' = <<>> /\ walSync' = Len(wal)
   /\ pc' = IF pc = "ckSync" THEN "ckDone" ELSE "rckDone"
-  /\ UNCHANGED <<wal, fx, vidx, vdat, veof, cur, todo, vtmp, tg, lastC, req, acked, writes, mode, rtodo, crashes, ckpts, bad, inflight>>
+  /\ UNCHANGED <<wal, fx, vidx, vdat, veof, cur, todo, vtmp, tg, lastC, req, acked, writes, mode, rtodo, crashes, ckpts, bad, inflight, queue, rots>>
 
 (***************************************************************************)
 (* Crashes                                                                 *)
 (***************************************************************************)
-InFlightNow == IF mode = "run" /\ pc \notin {"idle", "ckPrep", "ckSync", "ckDone"} THEN req ELSE inflight
+InFlightNow == IF mode = "run" THEN (IF req > 0 /\ req \notin acked THEN req ELSE 0) ELSE inflight
 
 CrashCommon ==
   /\ crashes < MaxCrash /\ bad = "none"
   /\ crashes' = crashes + 1 /\ mode' = "rec" /\ pc' = "rscan"
   /\ inflight' = InFlightNow
-  /\ cur' = <<>> /\ todo' = <<>> /\ vtmp' = <<>> /\ rtodo' = <<>> /\ lastC' = 0
-  /\ UNCHANGED <<tg, req, acked, writes, ckpts, bad>>
+  /\ cur' = <<>> /\ todo' = <<>> /\ vtmp' = <<>> /\ rtodo' = <<>> /\ lastC' = 0 /\ queue' = <<>>
+  /\ UNCHANGED <<tg, req, acked, writes, ckpts, bad, rots>>
 
 CrashKill ==   \* the process dies, the page cache survives
   /\ CrashCommon
@@ -300,14 +328,15 @@ Summary(r) == [ok |-> r.ok,
 RecoverScan ==
   /\ mode = "rec" /\ bad = "none" /\ pc = "rscan"
   /\ rtodo' = ToReplay(wal) /\ pc' = "rnext"
-  /\ wal' = [wal EXCEPT ![1] = FragST("INPROCESS")] \* WriteStatus(OPEN, REPLAYINPROCESS) + fsync
+  /\ wal' = IF wal = <<>> THEN wal ELSE [wal EXCEPT ![1] = FragST("INPROCESS")] \* WriteStatus(OPEN, REPLAYINPROCESS) + fsync
+                                                                          \* (a WAL of <= 10 bytes is just removed)
   /\ walSync' = Len(wal)
-  /\ UNCHANGED <<fx, vidx, vdat, veof, unsynced, snap, cur, todo, vtmp, tg, lastC, req, acked, writes, mode, crashes, ckpts, bad, inflight>>
+  /\ UNCHANGED <<fx, vidx, vdat, veof, unsynced, snap, cur, todo, vtmp, tg, lastC, req, acked, writes, mode, crashes, ckpts, bad, inflight, queue, rots>>
 
 RecoverNextTG ==
   /\ mode = "rec" /\ bad = "none" /\ pc = "rnext" /\ rtodo # <<>>
   /\ todo' = Head(rtodo).cmds /\ pc' = "rapply"
-  /\ UNCHANGED <<wal, walSync, fx, vidx, vdat, veof, unsynced, snap, cur, vtmp, tg, lastC, req, acked, writes, mode, rtodo, crashes, ckpts, bad, inflight>>
+  /\ UNCHANGED <<wal, walSync, fx, vidx, vdat, veof, unsynced, snap, cur, vtmp, tg, lastC, req, acked, writes, mode, rtodo, crashes, ckpts, bad, inflight, queue, rots>>
 
 \* replay applies the commands with the same routines as the flush (wtSets in TG order)
 \* pure model: replaying a variable command whose records are already in the interval adds nothing
@@ -316,35 +345,35 @@ RecoverApply ==
   /\ mode = "rec" /\ pc = "rapply" /\ (todo # <<>> \/ vtmp # <<>>) /\ bad = "none"
   /\ IF vtmp # <<>>
      THEN /\ SetPrim(ApplyOp(Prim, Head(vtmp))) /\ unsynced' = Append(unsynced, Head(vtmp)) /\ vtmp' = Tail(vtmp)
-          /\ UNCHANGED <<todo, bad>>
+          /\ UNCHANGED <<todo, bad, queue, rots>>
      ELSE LET c0 == Head(todo)
               already == /\ c0.f \in VarFiles /\ "Reappend" \notin Deviations
                          /\ LET old == ReadBlob(Prim, c0.f, c0.s) IN
                               old.ok /\ \A k \in 1..Len(c0.recs) : \E j \in 1..Len(old.recs) : old.recs[j] = c0.recs[k]
               r == CmdOps(Prim, c0, Deviations, DefaultLen)
           IN /\ todo' = Tail(todo)
-             /\ IF already THEN UNCHANGED <<fx, vidx, vdat, veof, unsynced, vtmp, bad>>
+             /\ IF already THEN UNCHANGED <<fx, vidx, vdat, veof, unsynced, vtmp, bad, queue, rots>>
                 ELSE IF r.ok
                 THEN /\ SetPrim(ApplyOp(Prim, Head(r.ops))) /\ unsynced' = Append(unsynced, Head(r.ops))
                      /\ vtmp' = Tail(r.ops) /\ bad' = bad
-                ELSE /\ bad' = "decode" /\ UNCHANGED <<fx, vidx, vdat, veof, unsynced, vtmp>>
-  /\ UNCHANGED <<wal, walSync, snap, pc, cur, tg, lastC, req, acked, writes, mode, rtodo, crashes, ckpts, inflight>>
+                ELSE /\ bad' = "decode" /\ UNCHANGED <<fx, vidx, vdat, veof, unsynced, vtmp, queue, rots>>
+  /\ UNCHANGED <<wal, walSync, snap, pc, cur, tg, lastC, req, acked, writes, mode, rtodo, crashes, ckpts, inflight, queue, rots>>
 
 \* after each replayed TG: CreateCheckpoint on the old WAL (PREP, sync, DONE)
 RecoverCkptPrep ==
   /\ mode = "rec" /\ bad = "none" /\ pc = "rapply" /\ todo = <<>> /\ vtmp = <<>>
   /\ wal' = Append(wal, FragTI(Head(rtodo).id, "CKPT", "PREP")) /\ pc' = "rckSync"
-  /\ UNCHANGED <<walSync, fx, vidx, vdat, veof, unsynced, snap, cur, todo, vtmp, tg, lastC, req, acked, writes, mode, rtodo, crashes, ckpts, bad, inflight>>
+  /\ UNCHANGED <<walSync, fx, vidx, vdat, veof, unsynced, snap, cur, todo, vtmp, tg, lastC, req, acked, writes, mode, rtodo, crashes, ckpts, bad, inflight, queue, rots>>
 RecoverCkptDone ==
   /\ mode = "rec" /\ bad = "none" /\ pc = "rckDone"
   /\ wal' = Append(wal, FragTI(Head(rtodo).id, "CKPT", "DONE")) /\ pc' = "rnext" /\ rtodo' = Tail(rtodo)
-  /\ UNCHANGED <<walSync, fx, vidx, vdat, veof, unsynced, snap, cur, todo, vtmp, tg, lastC, req, acked, writes, mode, crashes, ckpts, bad, inflight>>
+  /\ UNCHANGED <<walSync, fx, vidx, vdat, veof, unsynced, snap, cur, todo, vtmp, tg, lastC, req, acked, writes, mode, crashes, ckpts, bad, inflight, queue, rots>>
 
 \* WriteStatus(REPLAYED), Delete (close + unlink), and the fresh WAL of the new instance
 RecoverDone ==
   /\ mode = "rec" /\ bad = "none" /\ pc = "rnext" /\ rtodo = <<>>
   /\ mode' = "run" /\ pc' = "idle" /\ wal' = <<FragST("NOTREPLAYED")>> /\ walSync' = 1 /\ lastC' = 0
-  /\ UNCHANGED <<fx, vidx, vdat, veof, unsynced, snap, cur, todo, vtmp, tg, req, acked, writes, rtodo, crashes, ckpts, bad, inflight>>
+  /\ UNCHANGED <<fx, vidx, vdat, veof, unsynced, snap, cur, todo, vtmp, tg, req, acked, writes, rtodo, crashes, ckpts, bad, inflight, queue, rots>>
 
 (***************************************************************************)
 (* Next-state relation (free mode: the client chooses its requests)        *)
@@ -355,12 +384,22 @@ SameKind(cs) == \A i, j \in 1..Len(cs) : (cs[i].f \in FixedFiles) = (cs[j].f \in
 IssueAny == \E cs \in {c \in CmdSeqs : SameKind(c)} :
               Issue([i \in 1..Len(cs) |-> [f |-> cs[i].f, s |-> cs[i].s, recs |-> <<(req + 1) * 10 + i>>]])
 
-Crash == /\ \/ (mode = "run" /\ pc # "idle")
+Crash == /\ \/ (mode = "run" /\ (~Idle \/ queue # <<>> \/ lastC # 0 \/ (req > 0 /\ req \notin acked)))
             \/ mode = "rec"
-            \/ (mode = "run" /\ pc = "idle" /\ unsynced # <<>> /\ PowerLoss)
+            \/ (mode = "run" /\ unsynced # <<>> /\ PowerLoss)
          /\ (CrashKill \/ CrashPower)
 
-Next == \/ IssueAny \/ WalWrite \/ WalFsync \/ PrimWrite \/ Ack \/ CkptBegin \/ Syncfs
+\* rotation (SyncWAL, tickerPrimary branch): after the checkpoint, truncate the WAL to 0 and rewrite its status
+WalTruncate ==
+  /\ LoopMode /\ mode = "run" /\ bad = "none" /\ Idle /\ lastC = 0 /\ rots < MaxRot /\ Len(wal) > 1
+  /\ wal' = <<>> /\ walSync' = 0 /\ pc' = "rotStatus" /\ cur' = <<>>
+  /\ UNCHANGED <<fx, vidx, vdat, veof, unsynced, snap, todo, vtmp, tg, lastC, req, acked, writes, mode, rtodo, crashes, ckpts, bad, inflight, queue, rots>>
+StatusWrite ==
+  /\ mode = "run" /\ bad = "none" /\ pc = "rotStatus"
+  /\ wal' = <<FragST("NOTREPLAYED")>> /\ walSync' = 1 /\ pc' = "idle" /\ rots' = rots + 1
+  /\ UNCHANGED <<fx, vidx, vdat, veof, unsynced, snap, cur, todo, vtmp, tg, lastC, req, acked, writes, mode, rtodo, crashes, ckpts, bad, inflight, queue>>
+
+Next == \/ IssueAny \/ (\E k \in 1..Len(queue) : FlushBegin(k)) \/ WalTruncate \/ StatusWrite \/ WalWrite \/ WalFsync \/ PrimWrite \/ Ack \/ CkptBegin \/ Syncfs
         \/ Crash
         \/ RecoverScan \/ RecoverNextTG \/ RecoverApply \/ RecoverCkptPrep \/ RecoverCkptDone \/ RecoverDone
 
@@ -369,7 +408,7 @@ Spec == Init /\ [][Next]_vars
 (***************************************************************************)
 (* Properties                                                              *)
 (***************************************************************************)
-Quiet == mode = "run" /\ pc = "idle" /\ bad = "none"
+Quiet == mode = "run" /\ Idle /\ queue = <<>> /\ bad = "none" /\ PrevAcked
 
 \* every record carries a unique id  request*10 + command index
 ReqOf(x) == x \div 10
@@ -415,6 +454,8 @@ Readable == Quiet => \A f \in VarFiles, s \in Slots : Blob(f, s).ok
 
 \* C05: TG ids only grow; the WAL never holds a committed TG beyond a later checkpoint record it is not covered by
 TgMonotone == [][tg' >= tg]_vars
+\* rotation never discards a transaction that a restart would still have to replay
+TruncateSafe == [][(wal' = <<>> /\ mode = "run") => ToReplay(wal) = <<>>]_vars
 
-View == <<wal, walSync, fx, vidx, vdat, veof, unsynced, snap, pc, cur, todo, vtmp, lastC, req, acked, mode, rtodo, crashes, ckpts, bad, inflight>>
+View == <<wal, walSync, fx, vidx, vdat, veof, unsynced, snap, pc, cur, todo, vtmp, lastC, req, acked, mode, rtodo, crashes, ckpts, bad, inflight, queue, rots>>
 =============================================================================
